@@ -545,6 +545,7 @@ def run_dro(case, ses):
                 z = m.rvar(2)
                 w = m.dvar(())
                 x = m.dvar(2)
+                pre_expr = 2.0 * x[1] - w + 0.5           # expression objects built BEFORE the adaptation is declared
                 for ev in seq:
                     x.adapt([lab[p] for p in ev] if len(ev) > 1 else lab[ev[0]])
                 if adaptive:
@@ -665,6 +666,14 @@ def run_dro(case, ses):
             except Exception as e:
                 ses.stats.kinds['call-raises'] = ses.stats.kinds.get('call-raises', 0) + 1
                 continue
+            # the same expression (i) built before adapt() was called, (ii) through a slice of a slice
+            twins = []
+            for tn, tf in (('built before adapt()', lambda: pre_expr), ('slice of a slice x[1:][0]', lambda: 2.0 * x[1:][0] - w + 0.5),
+                           ('slice of a slice x[::-1][0:1][0]', lambda: 2.0 * x[::-1][0:1][0] - w + 0.5)):
+                try:
+                    twins.append((tn, tf()(z.assign(np.array([0.5, -1.0])))))
+                except Exception:
+                    ses.stats.kinds['call-raises'] = ses.stats.kinds.get('call-raises', 0) + 1
             try:
                 val2 = expr2(z.assign(np.array([0.5, -1.0])))
             except Exception as e:
@@ -701,6 +710,22 @@ def run_dro(case, ses):
                 if bad:
                     report(ses, 'dro.call', '%s: expression call in scenario %r %s' % (label, lab[s], bad[1]),
                            dict(k='dro', case=case, seq=seq))
+                    break
+                stop = False
+                for tn, tv in twins:
+                    if nevents > 1 and not isinstance(tv, pd.Series):
+                        report(ses, 'dro.call-twin', '%s: the expression %s, called, is not a per-scenario series' % (label, tn),
+                               dict(k='dro', case=case, seq=seq))
+                        stop = True
+                        break
+                    gt = tv.loc[lab[s]] if isinstance(tv, pd.Series) else tv
+                    bad = decide_equal(ses, '%s/call-twin/%s/s%d' % (label, tn, s), gt, want, 'dro-expression-call')
+                    if bad:
+                        report(ses, 'dro.call-twin', '%s: expression %s called in scenario %r %s' % (label, tn, lab[s], bad[1]),
+                               dict(k='dro', case=case, seq=seq))
+                        stop = True
+                        break
+                if stop:
                     break
                 if val2 is not None:
                     want2 = 0.5 * xs_[w.first] + xs_[x.first]
